@@ -1,4 +1,21 @@
 CHECKS = {
+ "C02": {
+  "text": "Generated valid group elements (both quaternion hemispheres, |w|~0, |v|~0, angle dense near 0 and pi, scales e^+-8 and "
+          "1+-2^k eps, translations to 1e3; both dtypes; batches) checked for: reference-Exp(Log X)==X as matrices, |Log X rotation|<=pi, "
+          "Log(-q)==Log(q) and Log(Inv X)==-Log X away from pi, and Log(Exp x)==x below pi. Exploration of the input space with "
+          "generators aimed at the three-way switch of SO3 Log; no proof.",
+  "design_ref": "DESIGN.md section 3, C02",
+  "note": "Exp reference is the mpmath closed form of C01; relations (c),(d) are metamorphic (pypose vs pypose) by nature of the statement.",
+  "technique": "property-based testing: Hypothesis generators, round-trip and metamorphic oracles with a high-precision reference Exp",
+ },
+ "C03": {
+  "text": "Generated triples and points against a float64 textbook matrix model (homomorphism, associativity, two-sided inverse, identity "
+          "constructors, Act on 3- and 4-vectors, composition), and run-length-encoded operation histories (up to 1500 steps quick / 10^4 "
+          "thorough) on one element with validity and model agreement asserted after every step. Bounded exploration.",
+  "design_ref": "DESIGN.md section 3, C03",
+  "note": "Reference: own quaternion->matrix formula and numpy products; tolerance 16*eps*product of factor norms; drift bounds 4*eps*(1+n), 256*eps*(1+n).",
+  "technique": "property-based testing: Hypothesis generators + history generation against a reference matrix model",
+ },
  "C01": {
   "text": "Regime-directed generated search (each of translation / rotation / log-scale drawn independently from a table "
           "covering exact 0, eps- and sqrt(eps)-neighbourhoods, k*pi, beyond pi, large) plus a deterministic (theta,sigma) "
